@@ -53,3 +53,12 @@ package main
 // (solanatxmetaparsers.ParseAnyTransactionStatusMeta returns `&status` of the format that parsed, or (nil, err)): the type
 // switches / type assertions on it then never yield a typed nil pointer.
 //@ spec func nonNilMeta(m any) bool = (typeis(m, *confirmed_block.TransactionStatusMeta) ==> m.(*confirmed_block.TransactionStatusMeta) != nil)
+
+// ---- indexer side (C01): the signature a transaction is indexed under ----
+// readFirstSignature (index-sig-to-cid.go; used by `index all`, its --verify pass and the sig-exists builder): the FIRST
+// signature, i.e. exactly one 64-byte read directly after the compact-u16 signature count (the decoder is third-party, its
+// content is not modelled; what is stated is that nothing else is read in between or afterwards).
+//@ func readFirstSignature
+//@   mode int
+//@   modifies buf
+//@   ensures result1 == nil ==> called(decoder.ReadCompactU16) == 1 && called(decoder.Read) == 1
